@@ -277,7 +277,8 @@ class DynamicConstantProvider(DelegatingConstantProvider):
         """
         # Might be a proxy.
         value = unwrap(value)
-        if isinstance(value, str) and name in self.STRING_FUNCTION_LOOKUP:
+        # Only handle real strings: methods of subclasses may be overridden by the subject.
+        if type(value) is str and name in self.STRING_FUNCTION_LOOKUP:
             self.add_value(value)
             self.add_value(self.STRING_FUNCTION_LOOKUP[name](value))
 
